@@ -75,11 +75,12 @@ pub struct DegStats {
     pub claims: u64,
     pub checked: u64,
     pub nontrivial: u64,
+    pub unmapped: u64,
 }
 
 /// Check all degree claims of the SSA CFG on one line s0 + t*delta.
 pub fn check_degrees(c: &SemCase, ix: &IrIndex, line: &[Trace; 4], ssa: &Cfg, label: &str, skip: &std::collections::BTreeSet<crate::gen::ast::Id>) -> Result<DegStats, Bad> {
-    let mut st = DegStats { claims: 0, checked: 0, nontrivial: 0 };
+    let mut st = DegStats { claims: 0, checked: 0, nontrivial: 0, unmapped: 0 };
     let render = || format!("prime {}\n{}\n--- SSA CFG ---\n{:?}", c.prime_name, c.r.src, ssa);
     for b in ssa.iter() {
         for stmt in b.statements() {
@@ -91,7 +92,10 @@ pub fn check_degrees(c: &SemCase, ix: &IrIndex, line: &[Trace; 4], ssa: &Cfg, la
                 let Some(range) = e.meta().degree_knowledge().degree() else { return };
                 let Some(d) = deg_num(range.end()) else { return };
                 st.claims += 1;
-                let Some(key) = ix.expr_key(c, e) else { return };
+                let Some(key) = ix.expr_key(c, e) else {
+                    st.unmapped += 1;
+                    return;
+                };
                 if let ValKey::Expr(id) = key {
                     if skip.contains(&id) {
                         return;
@@ -419,6 +423,7 @@ fn case(tape: &[u8], rec: &Rec) -> Verdict {
         }
         let st = check_degrees(&c, &ix, &line, &ssa, "", &skip)?;
         rec.class_n("degree_claims", st.claims);
+        rec.class_n("degree_claims_on_nodes_without_source_counterpart", st.unmapped);
         rec.class_n("claim_evaluations_checked", st.checked);
         rec.class_n("claim_evaluations_varying_along_line", st.nontrivial);
         nontrivial += st.nontrivial;
